@@ -426,6 +426,10 @@ NODE_SNIPPETS = {
     'date_compare': 'date >= "2024-01-01"', 'date_compare_rev': '"2024-01-01" <= date', 'date_eq': 'txn.date == "2024-03-05"', 'date_chain': '"2024-01-01" <= date <= "2024-12-31"',
     'short_row_attr': 'orders[2].qty', 'short_row_attr2': 'orders[-1].date', 'short_row_comp': '[r.qty for r in orders]', 'short_row_any': 'any(r.qty == 2 for r in orders)',
     'short_row_exists': 'exists(orders[2].qty)', 'short_row_len': 'len([r for r in orders if r.date])',
+    # folds whose START value is the data source's / a variable's own list (an in-place fold would grow it)
+    'sum_start_source': 'sum(([r for r in m] for x in m), orders)', 'sum_start_var': 'sum(([r for r in m] for o in orders), m)', 'sum_start_len': 'len(sum(([r for r in orders] for x in m), orders))',
+    'sum_start_row_list': 'sum(([r for r in m] for o in orders), [r for r in orders])', 'concat_sources': 'orders + orders', 'concat_var_source': 'm + orders', 'mul_source': 'orders * 2',
+    'sum_start_str': 'sum((r.item for r in orders), "")', 'max_default_source': 'max([], orders)', 'next_default_source': 'next((r for r in orders if False), orders)',
     'row_date_compare': '[r for r in orders if r.date > "2024-01-01"]', 'date_in': 'date in ["2024-03-05"]', 'date_bad': 'date > "not-a-date"', 'month_compare': 'month == "3"',
 }
 for _name in dir(ast):
